@@ -638,3 +638,68 @@ SUBS = [
     Sub("real_simus", check_real, gen=real_cases_gen, quick=200, thorough=600, shards=4),
     Sub("renumbering", check_renumbering, gen=renum_cases, quick=200, thorough=600, shards=4),
 ]
+
+
+# ------------------------------------------------------------------------------------------
+# large systems (added by the lead): size-dependent index arithmetic. The dense oracle does not scale, so the
+# reference is scipy's COO scatter-add of the same element arrays with indices built from `connect` only.
+
+
+def enum_large(tier):
+    # Ndof just below / above 2**15.5 ~ 46341 (row*Ndof+col leaves int32), and a larger one in the thorough tier
+    yield dict(n=151, dof_n=2, problem="elastic")  # 22801 nodes -> 45602 dofs
+    yield dict(n=154, dof_n=2, problem="elastic")  # 23716 nodes -> 47432 dofs
+    yield dict(n=217, dof_n=1, problem="thermal")  # 47089 dofs
+    if tier == "thorough":
+        yield dict(n=260, dof_n=2, problem="elastic")  # 135200 dofs
+
+
+def check_large(case, rec):
+    import scipy.sparse as sp
+    from EasyFEA import Mesh
+    from EasyFEA.FEM._group_elem import GroupElemFactory
+
+    n = case["n"]
+    xs = np.linspace(0.0, 1.0, n)
+    X, Y = np.meshgrid(xs, xs, indexing="ij")
+    coord = np.column_stack([X.ravel(), Y.ravel(), np.zeros(n * n)])
+    idx = np.arange(n * n).reshape(n, n)
+    conn = np.column_stack([idx[:-1, :-1].ravel(), idx[1:, :-1].ravel(), idx[1:, 1:].ravel(), idx[:-1, 1:].ravel()])
+    mesh = Mesh({"QUAD4": GroupElemFactory.Create("QUAD4", conn, coord)})
+    if case["problem"] == "elastic":
+        simu = Simulations.Elastic(mesh, Models.Elastic.Isotropic(2, E=3.0, v=0.25))
+    else:
+        simu = Simulations.Thermal(mesh, Models.Thermal(k=1.5, c=2.0))
+    dof_n = case["dof_n"]
+    Ndof = mesh.Nn * dof_n
+    sig = dict(problem=case["problem"], Ndof=int(Ndof))
+    rec.label(f"large:{case['problem']}:Ndof={Ndof}")
+    local = simu.Construct_local_matrix_system(simu.problemType)
+    got = simu.Get_K_C_M_F()
+    for slot, name in enumerate("KCM"):
+        rows, cols, vals = [], [], []
+        for g, arrs in local.items():
+            A_e = arrs[slot]
+            if A_e is None:
+                continue
+            A_e = np.asarray(A_e)
+            dofs = (g.connect[:, :, None] * dof_n + np.arange(dof_n)[None, None, :]).reshape(g.Ne, -1)
+            m = dofs.shape[1]
+            rows.append(np.repeat(dofs, m, axis=1).ravel())
+            cols.append(np.tile(dofs, (1, m)).ravel())
+            vals.append(A_e.reshape(g.Ne, -1).ravel())
+        if not rows:
+            continue
+        ref = sp.coo_matrix((np.concatenate(vals), (np.concatenate(rows).astype(np.int64), np.concatenate(cols).astype(np.int64))),
+                            shape=(Ndof, Ndof)).tocsr()
+        A = got[slot].tocsr()
+        rec.require(A.shape == ref.shape, "large_shape", f"{name}: {A.shape} vs {ref.shape}", **sig)
+        diff = abs(A - ref)
+        err = diff.max() if diff.nnz else 0.0
+        rec.close(err, abs(ref).max(), 1e-12, "large_scatter_add", f"{name} of a {Ndof}-dof system differs from the COO scatter-add of "
+                  f"its element matrices ({int((diff > 1e-12 * abs(ref).max()).sum())} entries)", **sig)
+        rec.require(A.nnz == ref.nnz or abs(A.nnz - ref.nnz) <= 0.01 * ref.nnz, "large_pattern", f"{name}: nnz {A.nnz} vs {ref.nnz}", **sig)
+    rec.nontrivial(True)
+
+
+SUBS.append(Sub("large_system", check_large, enum=enum_large))
